@@ -61,7 +61,7 @@ func (c01) Gen(r *sim.Rand, c *sim.Case, tier string) {
 	if !Wild {
 		g.HFOncePerKind = true  // C11 finding hf-duplicate-reference
 		g.RectTablesOnly = true // C09 findings: structural edits on ragged tables panic
-		g.WellFormedMath = true // finding math-raw-innerxml (lane B)
+		g.WellFormedMath = false // the finding math-raw-innerxml is fixed: arbitrary formula text is part of the search
 	}
 	n := r.Range(3, 40)
 	var ops []sim.Op
@@ -144,6 +144,7 @@ func (c01) Witnesses() []*sim.Case {
 		mk("math-raw-innerxml: text with < and &", sim.Op{K: "math", S: []sim.Str{"a<b & c"}, I: []int{1}}),
 		mk("math-raw-innerxml: control character", sim.Op{K: "math", S: []sim.Str{"x\x02y"}, I: []int{0}}),
 		mk("math-raw-innerxml: unbalanced tag", sim.Op{K: "math", S: []sim.Str{"<m:r><m:t>x</m:t>"}, I: []int{1}}),
+		mk("math-fragment-closes-wrapper: end tag first", sim.Op{K: "math", S: []sim.Str{"</x><x>"}, I: []int{0}}),
 	}
 }
 
